@@ -11,6 +11,46 @@ import argparse, glob, json, os, shutil, subprocess, sys, tempfile, time
 HERE = os.path.dirname(os.path.dirname(os.path.abspath(__file__)))
 
 
+def resolve_import_conflicts(path):
+    import re
+    lines = open(path).read().split('\n')
+    out, i, ok = [], 0, True
+    imp = re.compile(r'^(from (\S+) import (.+)|import .+)$')
+    while i < len(lines):
+        if lines[i].startswith('<<<<<<< '):
+            j = lines.index('=======', i)
+            k = next(x for x in range(j, len(lines)) if lines[x].startswith('>>>>>>> '))
+            ours, theirs = lines[i + 1:j], lines[j + 1:k]
+            if not all(imp.match(l) for l in ours + theirs if l.strip()):
+                ok = False
+                break
+            merged, mods = [], {}
+            for l in theirs + ours:
+                m = imp.match(l)
+                if not l.strip():
+                    continue
+                if m.group(2):
+                    names = [n.strip() for n in m.group(3).split(',')]
+                    if m.group(2) in mods:
+                        for n in names:
+                            if n not in mods[m.group(2)]:
+                                mods[m.group(2)].append(n)
+                    else:
+                        mods[m.group(2)] = names
+                        merged.append(('from', m.group(2)))
+                elif ('import', l) not in merged:
+                    merged.append(('import', l))
+            for kind, x in merged:
+                out.append(x if kind == 'import' else f"from {x} import {', '.join(mods[x])}")
+            i = k + 1
+        else:
+            out.append(lines[i])
+            i += 1
+    if ok:
+        open(path, 'w').write('\n'.join(out))
+    return ok
+
+
 def main():
     ap = argparse.ArgumentParser()
     ap.add_argument('--only')
@@ -40,8 +80,14 @@ def main():
                 os.rmdir(wt)
                 subprocess.run(['git', '-C', '/repo', 'worktree', 'add', '-q', '--detach', wt, 'HEAD'], capture_output=True)
                 q = subprocess.run(['git', '-C', wt, 'apply', '--3way', os.path.join(d, 'patch.diff')], capture_output=True, text=True)
-                merged = q.returncode == 0 and not subprocess.run(['git', '-C', wt, 'diff', '--name-only', '--diff-filter=U'],
-                                                                  capture_output=True, text=True).stdout.strip()
+                unmerged = subprocess.run(['git', '-C', wt, 'diff', '--name-only', '--diff-filter=U'],
+                                          capture_output=True, text=True).stdout.split()
+                # conflicts that consist of import lines only (a repair and the seeded change both touched the imports) are
+                # resolved by taking the union of the imported names
+                for f in list(unmerged):
+                    if resolve_import_conflicts(os.path.join(wt, f)):
+                        unmerged.remove(f)
+                merged = not unmerged and os.path.exists(os.path.join(wt, 'aiuti'))
                 if merged:
                     shutil.rmtree(os.path.join(root, 'aiuti'))
                     shutil.copytree(os.path.join(wt, 'aiuti'), os.path.join(root, 'aiuti'), ignore=shutil.ignore_patterns('__pycache__'))
